@@ -37,37 +37,37 @@ func nhEnvInt(k string, d int) int {
 }
 
 type nhParams struct {
-	hosts      int
-	attack     string
-	nonvoting  int // the last nonvoting hosts join as non-voting replicas
+	hosts       int
+	attack      string
+	nonvoting   int // the last nonvoting hosts join as non-voting replicas
 	checkQuorum bool
-	preVote    bool
-	clients    int
-	durMs      int
-	smType     string
-	store      string
-	faults     bool
-	crashes    bool
-	fsopCrash  bool // crash at the N-th file system operation instead of "now"
-	finalCrash bool // crash all hosts at the end and check that completed writes survived
-	snapshots  bool
-	sessions   bool
-	closeRace  bool // epilogue: request APIs racing NodeHost.Close
-	stopStart  bool // StopShard / restart replica / close NodeHost while requests are in flight
-	maxZombies int
-	thinkUs    int
-	opTimeout  time.Duration
+	preVote     bool
+	clients     int
+	durMs       int
+	smType      string
+	store       string
+	faults      bool
+	crashes     bool
+	fsopCrash   bool // crash at the N-th file system operation instead of "now"
+	finalCrash  bool // crash all hosts at the end and check that completed writes survived
+	snapshots   bool
+	sessions    bool
+	closeRace   bool // epilogue: request APIs racing NodeHost.Close
+	stopStart   bool // StopShard / restart replica / close NodeHost while requests are in flight
+	maxZombies  int
+	thinkUs     int
+	opTimeout   time.Duration
 }
 
 type nhRun struct {
-	t       *testing.T
-	c       *nhCluster
-	p       nhParams
-	opid    int64
-	stop    int32
-	hmu     []sync.RWMutex // per host: protects h.nh against restart
-	done    map[int]bool   // completed write ids
-	dmu     sync.Mutex
+	t    *testing.T
+	c    *nhCluster
+	p    nhParams
+	opid int64
+	stop int32
+	hmu  []sync.RWMutex // per host: protects h.nh against restart
+	done map[int]bool   // completed write ids
+	dmu  sync.Mutex
 }
 
 // bootEvent records what the log store of h holds for the replica, before the replica starts.
